@@ -773,7 +773,10 @@ Record orun := {
   r_timed_out : bool;              (* the watchdog of the harness had to stop optimise() *)
   r_limit_raise : bool;            (* optimise() raised from inside the limit machinery: stop condition,
                                       timer, size / depth schedules, iterator *)
-  r_pops : list opop;              (* populational: one entry per recorded population *)
+  r_pops : list opop;              (* populational: one entry per recorded population (of a very long run: the last ones) *)
+  r_skip_gen : nat;                (* keeper counters of the recorded population before the first listed one (0, 0 if none) *)
+  r_skip_stag : nat;
+  r_restart0 : Q;                  (* callback time of the last stagnation-clock restart before the first listed one *)
   r_started : nat;                 (* evolve steps started (random search: new individuals requested in the loop) *)
   r_broke : bool;                  (* a started step ended with EvaluationAttemptsError *)
   r_evolved_sizes : list nat;      (* sizes of the unlabelled generations of the history *)
@@ -820,7 +823,7 @@ Definition ragree (r : orun) : bool :=
   let l := r_lim r in
   if negb (r_ok r) || r_timed_out r then true else
   if r_populational r then
-    counters_ok 0 0 (r_pops r)
+    counters_ok (r_skip_gen r) (r_skip_stag r) (r_pops r)
     (* every evolve step was started after a stop test that answered False *)
     && forallb (fun ab => negb (stop_obs l (p_minutes (fst ab)) (p_stagdur (fst ab)) (fst ab))) (step_pairs (r_pops r))
     (* the loop was left because the stop test answered True (or a step gave up) *)
@@ -876,7 +879,7 @@ Fixpoint stagtime_ok (e : Q) (restart : Q) (prev : option opop) (ps : list opop)
   end.
 
 Definition h_stagnation_time (r : orun) : bool :=
-  match est (r_lim r) with Some e => stagtime_ok e 0 None (r_pops r) | None => true end.
+  match est (r_lim r) with Some e => stagtime_ok e (r_restart0 r) None (r_pops r) | None => true end.
 
 Definition h_time (r : orun) : bool :=
   match tmo (r_lim r) with
